@@ -63,7 +63,8 @@ Dur(v) ==
   LET p == IndexOf(v, 46)
       ip == IF p = 0 THEN v ELSE SubSeq(v, 1, p - 1)
       fp == IF p = 0 THEN <<>> ELSE SubSeq(v, p + 1, Len(v)) IN
-  IF StrictDec(v) /\ Len(StripZ(ip)) <= 7 /\ Len(fp) <= 9
+  IF StrictDec(v) /\ (\/ Len(StripZ(ip)) <= 7 /\ Len(fp) <= 9
+                      \/ Len(StripZ(ip)) <= 15 /\ Len(fp) <= 9 /\ \A k \in 1..Len(fp) : fp[k] = 48)   \* whole seconds below 2^53 are exact in f64
   THEN [c |-> "ok", v |-> <<StripZ(ip), IF fp = <<>> THEN 0 ELSE ValOf(fp, 0) * (10 ^ (9 - Len(fp)))>>]
   ELSE IF v = <<>> THEN [c |-> "err", v |-> <<>>]
   ELSE IF LowerS(Unsigned(v)) \in NanInf THEN [c |-> "err", v |-> <<>>]
